@@ -658,8 +658,65 @@ def check_volume(case):
     return out
 
 
+def check_closed_child(case):
+    """A MultiPort one of whose sub-ports was closed earlier (round 14: the loop that skips closed sub-ports replaced by a
+    helper that does not): close() still works any number of times, releases once, and with autoreset every OPEN
+    sub-port gets the reset messages exactly once; afterwards send raises ValueError."""
+    class Dev(ports_mod.BaseIOPort):
+        def _open(self, **kwargs):
+            self.sent = []
+
+        def _send(self, msg):
+            self.sent.append(msg)
+
+    n, k, ar = case['n'], case['closed'], case['autoreset']
+    devs = [Dev(f'd{i}') for i in range(n)]
+    for i in k:
+        devs[i].close()
+    mp = ports_mod.MultiPort(devs)
+    mp.autoreset = ar
+    releases = []
+    orig = mp._close
+    mp._close = lambda: (releases.append(1), orig())
+    out = []
+    try:
+        for _ in range(case.get('sends', 0)):
+            mp.send(mido.Message('clock'))
+    except Exception:  # noqa: BLE001
+        pass        # what a send before close() does with a closed sub-port is not C11's business (C10 covers delivery)
+    for d in devs:
+        del d.sent[:]
+    for i in range(3):
+        try:
+            mp.close()
+        except Exception as exc:  # noqa: BLE001
+            out.append(fail('close-raises', f'{case}: close() #{i + 1}: {exc!r}', exc=exc_sig(exc)))
+    if not mp.closed or len(releases) != 1:
+        out.append(fail('close-release', f'{case}: closed={mp.closed}, released {len(releases)} times'))
+    want = [bytes(m.bytes()) for m in ports_mod.reset_messages()] if ar else []
+    for i, d in enumerate(devs):
+        got = [bytes(m.bytes()) for m in d.sent]
+        if got != ([] if i in k else want):
+            out.append(fail('reset-once', f'{case}: sub-port {i} ({"closed" if i in k else "open"}) got {len(got)} messages '
+                                          f'during close, expected {0 if i in k else len(want)}'))
+            break
+    try:
+        mp.send(mido.Message('clock'))
+        out.append(fail('send-after-close', f'{case}: send after close() did not raise'))
+    except ValueError:
+        pass
+    except Exception as exc:  # noqa: BLE001
+        out.append(fail('send-after-close', f'{case}: send after close() raised {exc!r}', exc=exc_sig(exc)))
+    mp.autoreset = False
+    for d in devs:
+        d.closed = True
+    return out
+
+
 def run_case(case):
     LAST_TAGS.clear()
+    if case['kind'] == 'closed-child':
+        return check_closed_child(case)
     if case['kind'] == 'gc':
         return check_gc(case)
     if case['kind'] == 'volume':
@@ -684,7 +741,7 @@ def run_case(case):
 
 
 def nontrivial(case):
-    if case['kind'] in ('gc', 'volume', 'sendoverride'):
+    if case['kind'] in ('gc', 'volume', 'sendoverride', 'closed-child'):
         return True
     if case['kind'] in ('server', 'brokenpipe'):
         return True
@@ -850,6 +907,11 @@ def main(ctx):
         for ops in (['close'], ['send', 'close', 'close'], ['reset', 'close'], ['panic', 'send', 'reset', 'close'],
                     ['close', 'reset', 'panic', 'close']):
             ctx.check({'kind': 'sendoverride', 'autoreset': ar, 'ops': ops}, sample=False)
+    for ar in (False, True):
+        for n, closed in ((3, [1]), (3, [0]), (3, [2]), (2, [0, 1]), (4, [1, 2]), (1, [])):
+            for sends in (0, 2):
+                ctx.check({'kind': 'closed-child', 'n': n, 'closed': closed, 'autoreset': ar, 'sends': sends},
+                          classes=('multiport-closed-sub-port',), sample=(n == 3 and closed == [1] and ar and sends == 2))
     for port in ('echo', 'device', 'multi'):
         for how in ('iter_pending', 'poll', 'receive'):
             ctx.check({'kind': 'volume', 'port': port, 'n': 5000, 'how': how}, sample=False)
